@@ -299,6 +299,177 @@ Proof.
   apply map_ext. intros ph. unfold pad1. now rewrite <- !app_assoc.
 Qed.
 
+(* ================= splitting on the syllable separator when pads follow it ================= *)
+
+Definition sp_only (a : str) : Prop := Forall (fun c : char => c = sp) a.
+
+Lemma sp_only_ws_only (a : str) : sp_only a -> ws_only a.
+Proof. apply Forall_impl. intros c ->. apply is_space_sp. Qed.
+
+Lemma sp_only_sp : sp_only [sp].
+Proof. repeat constructor. Qed.
+
+Lemma free_sp_only (x a : str) : free x [sp] -> sp_only a -> free x a.
+Proof.
+  intros Hf. induction 1 as [|c a -> _ IH]; [apply free_nil|].
+  change (sp :: a) with ([sp] ++ a). now apply free_app.
+Qed.
+
+Lemma despace_sp_only (a : str) : sp_only a -> despace a = [].
+Proof.
+  induction 1 as [|c a -> _ IH]; [reflexivity|]. unfold despace in *. cbn [filter].
+  now rewrite N.eqb_refl.
+Qed.
+
+Lemma despace_idem (u : str) : despace (despace u) = despace u.
+Proof.
+  unfold despace. induction u as [|c u IH]; [reflexivity|]. cbn [filter].
+  destruct (negb (c =? sp)%N) eqn:E; [|exact IH]. cbn [filter]. now rewrite E, IH.
+Qed.
+
+Lemma despace_terminated_sp (Q : str) (syl : list str) :
+  sp_only Q -> Forall (fun ph : str => ~ In sp ph) syl -> despace (terminated Q syl) = concat syl.
+Proof.
+  intros HQ H. induction H as [|ph syl Hph _ IH]; [reflexivity|].
+  rewrite terminated_cons, !despace_app, IH, (despace_no_sp ph Hph), (despace_sp_only Q HQ).
+  reflexivity.
+Qed.
+
+Lemma split_go_free (x a r acc : str) : free x a ->
+  split_go x (a ++ r) 0 acc = split_go x r 0 (rev a ++ acc).
+Proof.
+  revert acc. induction a as [|c a IH]; intros acc H; [reflexivity|].
+  cbn [app]. rewrite split_go_0_cons, (free_head x a r c H).
+  rewrite IH by (eapply free_cons_inv; eauto). cbn [rev]. now rewrite <- app_assoc.
+Qed.
+
+Lemma hd_not_sp_of_not_in (x : str) : ~ In sp x -> hd_error x <> Some sp.
+Proof. destruct x as [|c x]; [discriminate|]. cbn [hd_error]. intros H E. injection E as ->. apply H. now left. Qed.
+
+Section SplitSyll.
+  Variables xs P S W : str.
+  Variable f : str -> str.
+  Hypothesis Hxs : xs <> [].
+  Hypothesis Fs : free xs [sp].
+  Hypothesis HS : sp_only S.
+  Hypothesis HW : sp_only W.
+
+  (* a syllable body that contains the syllable separator only at its end and that [f] cleans,
+     whatever spaces precede it *)
+  Definition good_syl (syl : list str) : Prop :=
+    only_at_end xs (terminated P syl) = true /\
+    forall pad : str, sp_only pad -> f (pad ++ terminated P syl) = concat syl.
+
+  Lemma split_sylls_f (wd : list (list str)) (rest : str) : Forall good_syl wd ->
+    forall acc : str, sp_only acc ->
+    exists acc' : str, sp_only acc' /\
+      map f (split_go xs (concat (map (render_syll (sep3 P (xs ++ S) W)) wd) ++ rest) 0 acc)
+      = map (@concat char) wd ++ map f (split_go xs rest 0 acc').
+  Proof.
+    induction 1 as [|syl wd [Ho Hf] _ IH]; intros acc Hacc.
+    - exists acc. split; [exact Hacc|reflexivity].
+    - cbn [map concat]. rewrite render_syll3, <- !app_assoc.
+      rewrite only_at_end_split_go by assumption.
+      rewrite split_go_free by now apply free_sp_only.
+      destruct (IH (rev S ++ [])) as (acc' & Hacc' & E).
+      { rewrite app_nil_r. now apply Forall_rev. }
+      exists acc'. split; [exact Hacc'|]. cbn [map]. rewrite E, Hf by now apply Forall_rev.
+      reflexivity.
+  Qed.
+
+  Lemma split_render_f (t : utree) (rest : str) : Forall (Forall good_syl) t ->
+    forall acc : str, sp_only acc ->
+    exists acc' : str, sp_only acc' /\
+      map f (split_go xs (render (sep3 P (xs ++ S) W) t ++ rest) 0 acc)
+      = sylls_of t ++ map f (split_go xs rest 0 acc').
+  Proof.
+    unfold render, sylls_of. induction 1 as [|wd t Hwd _ IH]; intros acc Hacc.
+    - exists acc. split; [exact Hacc|reflexivity].
+    - cbn [map concat]. unfold render_word at 1. cbn [sep3 s_word Render.osep].
+      rewrite <- !app_assoc.
+      destruct (split_sylls_f wd (W ++ concat (map (render_word (sep3 P (xs ++ S) W)) t) ++ rest)
+                  Hwd acc Hacc) as (acc1 & Hacc1 & E1).
+      rewrite E1. rewrite split_go_free by now apply free_sp_only.
+      destruct (IH (rev W ++ acc1)) as (acc' & Hacc' & E).
+      { apply Forall_app. split; [now apply Forall_rev|exact Hacc1]. }
+      exists acc'. split; [exact Hacc'|]. now rewrite E, <- app_assoc.
+  Qed.
+
+  Hypothesis Hfws : forall a : str, ws_only a -> ws_only (f a).
+
+  Lemma pieces_ws_only (rest acc : str) : ws_only rest -> sp_only acc ->
+    Forall ws_only (map f (split_go xs rest 0 acc)).
+  Proof.
+    intros Hr Ha. apply Forall_map. eapply Forall_impl.
+    2:{ apply split_go_ws_only; [exact Hr|now apply sp_only_ws_only]. }
+    intros a. apply Hfws.
+  Qed.
+
+  Theorem norm_split_render_f (t : utree) (rest : str) :
+    Forall (Forall good_syl) t -> Forall tok_ok (sylls_of t) -> ws_only rest ->
+    norm_ws (join [sp] (map f (split_on xs (render (sep3 P (xs ++ S) W) t ++ rest))))
+    = join [sp] (sylls_of t).
+  Proof.
+    intros Hg Hok Hr. unfold split_on.
+    destruct (split_render_f t rest Hg [] ltac:(constructor)) as (acc' & Hacc' & E). rewrite E.
+    destruct (join_app_ws (sylls_of t) (map f (split_go xs rest 0 acc'))
+                (pieces_ws_only rest acc' Hr Hacc')) as (w & Hw & E2).
+    rewrite E2. now apply norm_ws_join_ws.
+  Qed.
+End SplitSyll.
+
+(* the cleaning of a padded syllable *)
+Lemma clean_pad_syll (xp pad : str) (syl : list str) : xp <> [] -> free xp [sp] ->
+  sp_only pad -> Forall (free xp) syl -> Forall (fun ph : str => ~ In sp ph) syl ->
+  clean_syll xp (pad ++ terminated ([sp] ++ xp ++ [sp]) syl) = concat syl.
+Proof.
+  intros Hxp Sp Hpad Hf Hn. unfold clean_syll. rewrite (replace_all_go xp) by exact Hxp.
+  rewrite replace_go_free by now apply free_sp_only.
+  rewrite <- (app_nil_r (terminated _ syl)).
+  rewrite (gen_terminated xp [] ([sp] ++ xp ++ [sp]) ([sp] ++ [] ++ [sp])).
+  2:{ intros rest. now apply replace_go_sp_sep_sp. }
+  2:{ exact Hf. }
+  cbn [replace_go]. rewrite app_nil_r, replace_sp_despace, despace_app.
+  rewrite (despace_sp_only pad Hpad). cbn [app].
+  apply despace_terminated_sp; [repeat constructor|exact Hn].
+Qed.
+
+Lemma clean_pad_ws_syll (pad : str) (syl : list str) :
+  sp_only pad -> Forall (fun ph : str => ~ In sp ph) syl ->
+  clean_syll [sp] (pad ++ terminated [sp] syl) = concat syl.
+Proof.
+  intros Hpad Hn. unfold clean_syll. rewrite !replace_sp_despace, despace_idem, despace_app.
+  rewrite (despace_sp_only pad Hpad). cbn [app].
+  apply despace_terminated_sp; [apply sp_only_sp|exact Hn].
+Qed.
+
+Lemma shape_nested_no_sp (t : utree) : tree_shape t ->
+  Forall (Forall (Forall (fun ph : str => ~ In sp ph))) t.
+Proof.
+  intros H. eapply Forall_impl; [|exact (shape_nested_tok t H)]. intros wd Hwd.
+  eapply Forall_impl; [|exact Hwd]. intros syl Hsyl.
+  eapply Forall_impl; [|exact Hsyl]. intros ph [_ Hw]. now apply ws_free_not_sp.
+Qed.
+
+Lemma nested_and (A B : str -> Prop) (t : utree) :
+  Forall (Forall (Forall A)) t -> Forall (Forall (Forall B)) t ->
+  Forall (Forall (fun syl : list str => Forall A syl /\ Forall B syl)) t.
+Proof.
+  intros HA HB. rewrite Forall_forall in *. intros wd Hwd.
+  specialize (HA wd Hwd). specialize (HB wd Hwd). rewrite Forall_forall in *. intros syl Hsyl.
+  split; [now apply HA|now apply HB].
+Qed.
+
+Lemma nested_and3 (A B C : str -> Prop) (t : utree) :
+  Forall (Forall (Forall A)) t -> Forall (Forall (Forall B)) t -> Forall (Forall (Forall C)) t ->
+  Forall (Forall (fun syl : list str => Forall A syl /\ Forall B syl /\ Forall C syl)) t.
+Proof.
+  intros HA HB HC. rewrite Forall_forall in *. intros wd Hwd.
+  specialize (HA wd Hwd). specialize (HB wd Hwd). specialize (HC wd Hwd).
+  rewrite Forall_forall in *. intros syl Hsyl.
+  split; [now apply HA|split; [now apply HB|now apply HC]].
+Qed.
+
 (* ================= a phone separator that is not a space ================= *)
 
 Section PadViews.
@@ -366,13 +537,14 @@ Section PadViews.
     - repeat apply ws_only_replace_go; try exact Hws; try apply ws_only_nil; apply ws_only_sp.
   Qed.
 
+  (* since fix 7cc02d3 (cut on the syllable separator first): [free xp xs] and the absence of
+     spaces inside xp and xs are no longer needed; [free xs xp] now is *)
   Theorem prepare_syll_pad_spec : forall ws : str, ws_only ws ->
     prepare_line (sep3 xp xs xw) USyll (render_pad xp xs xw t ++ ws) = Ok (join [sp] (sylls_of t)).
   Proof.
     intros ws Hws. unfold prepare_line.
-    cbn [sep3 s_word s_syll s_phone Prepare.Model.osep]. f_equal.
+    cbn [sep3 s_word s_syll s_phone Prepare.Model.osep]. cbv zeta. f_equal.
     rewrite render_pad_alt.
-    assert (Hsp : [sp] <> []) by discriminate.
     rewrite (replace_all_go xw) by exact Hxw.
     rewrite (gen_render xw [] ([sp] ++ xp ++ [sp]) ([sp] ++ xp ++ [sp]) (xs ++ [sp]) (xs ++ [sp])
                (xw ++ [sp]) ([] ++ [sp])).
@@ -380,27 +552,20 @@ Section PadViews.
     2:{ intros rest. now apply replace_go_free_sp. }
     2:{ intros rest. now apply replace_go_sep_sp. }
     2:{ exact Nw. }
-    rewrite (replace_all_go [sp]) by exact Hsp.
-    rewrite (gen_render [sp] [] ([sp] ++ xp ++ [sp]) xp (xs ++ [sp]) xs ([] ++ [sp]) []).
-    2:{ intros rest. now apply delete_sp_around. }
-    2:{ intros rest. now apply delete_sp_after. }
-    2:{ intros rest. apply delete_sp_one. }
-    2:{ now apply shape_nested_sp. }
-    rewrite (replace_all_go xp) by exact Hxp.
-    rewrite (gen_render xp [] xp [] xs xs [] []).
-    2:{ intros rest. now apply replace_go_at_sep. }
-    2:{ intros rest. now apply replace_go_free. }
-    2:{ intros rest. reflexivity. }
-    2:{ exact Np. }
-    rewrite (replace_all_go xs) by exact Hxs.
-    rewrite (gen_render xs [sp] [] [] xs [sp] [] []).
-    2:{ intros rest. reflexivity. }
-    2:{ intros rest. now apply replace_go_at_sep. }
-    2:{ intros rest. reflexivity. }
-    2:{ exact Ns. }
-    rewrite render_syll_only. apply norm_ws_terminated.
+    apply (norm_split_render_f xs ([sp] ++ xp ++ [sp]) [sp] ([] ++ [sp]) (clean_syll xp)).
+    - exact Hxs.
+    - exact Ss.
+    - apply sp_only_sp.
+    - apply sp_only_sp.
+    - apply clean_syll_ws_only.
+    - pose proof (nested_and3 _ _ _ t Ns Np (shape_nested_no_sp t Hsh)) as N.
+      eapply Forall_impl; [|exact N]. intros wd Hwd.
+      eapply Forall_impl; [|exact Hwd]. intros syl (H1 & H2 & H3). split.
+      + apply free_only_at_end. apply free_terminated; [|exact H1].
+        apply free_app; [exact Ss|now apply free_app].
+      + intros pad Hpad. now apply clean_pad_syll.
     - now apply shape_sylls_tok.
-    - repeat apply ws_only_replace_go; try exact Hws; try apply ws_only_nil; apply ws_only_sp.
+    - apply ws_only_replace_go; [apply ws_only_nil|exact Hws].
   Qed.
 
   (* the three padded views are equal once the spaces are removed *)
@@ -410,6 +575,7 @@ Section PadViews.
     gold_line (sep3 xp xs xw) (render_pad xp xs xw t ++ ws) = Ok o3 ->
     despace o1 = despace o2 /\ despace o2 = despace o3 /\ despace o1 = concat (phones_of t).
   Proof.
+    generalize Fps Hnp Hns. intros _ _ _.   (* no longer used; kept so that the statement is unchanged *)
     intros ws o1 o2 o3 Hws H1 H2 H3.
     rewrite prepare_phone_pad_spec in H1 by exact Hws.
     rewrite prepare_syll_pad_spec in H2 by exact Hws.
@@ -480,39 +646,43 @@ Section PadWs.
     - repeat apply ws_only_replace_go; try exact Hws; try apply ws_only_nil; apply ws_only_sp.
   Qed.
 
-  Theorem prepare_syll_pad_ws_spec : forall ws : str, ws_only ws ->
+  Lemma prepare_syll_pad_ws_core : free xs [sp] -> forall ws : str, ws_only ws ->
     prepare_line sep USyll (render_pad_ws xs xw t ++ ws) = Ok (join [sp] (sylls_of t)).
   Proof.
-    intros ws Hws. unfold prepare_line, sep, render_pad_ws.
-    cbn [sep3 s_word s_syll s_phone Prepare.Model.osep]. f_equal.
-    assert (Hsp : [sp] <> []) by discriminate.
+    intros Fs ws Hws. unfold prepare_line, sep, render_pad_ws.
+    cbn [sep3 s_word s_syll s_phone Prepare.Model.osep]. cbv zeta. f_equal.
     rewrite (replace_all_go xw) by exact Hxw.
     rewrite (gen_render xw [] [sp] [sp] (xs ++ [sp]) (xs ++ [sp]) (xw ++ [sp]) ([] ++ [sp])).
     2:{ intros rest. now apply replace_go_free. }
     2:{ intros rest. now apply replace_go_free_sp. }
     2:{ intros rest. now apply replace_go_sep_sp. }
     2:{ exact Nw. }
-    rewrite !(replace_all_go [sp]) by exact Hsp.
-    rewrite (gen_render [sp] [] [sp] [] (xs ++ [sp]) xs ([] ++ [sp]) []).
-    2:{ intros rest. apply delete_sp_one. }
-    2:{ intros rest. now apply delete_sp_after. }
-    2:{ intros rest. apply delete_sp_one. }
-    2:{ exact Nsp. }
-    rewrite (gen_render [sp] [] [] [] xs xs [] []).
-    2:{ intros rest. reflexivity. }
-    2:{ intros rest. apply replace_go_free. now apply free_sp. }
-    2:{ intros rest. reflexivity. }
-    2:{ exact Nsp. }
-    rewrite (replace_all_go xs) by exact Hxs.
-    rewrite (gen_render xs [sp] [] [] xs [sp] [] []).
-    2:{ intros rest. reflexivity. }
-    2:{ intros rest. now apply replace_go_at_sep. }
-    2:{ intros rest. reflexivity. }
-    2:{ exact Ns. }
-    rewrite render_syll_only. apply norm_ws_terminated.
+    apply (norm_split_render_f xs [sp] [sp] ([] ++ [sp]) (clean_syll [sp])).
+    - exact Hxs.
+    - exact Fs.
+    - apply sp_only_sp.
+    - apply sp_only_sp.
+    - apply clean_syll_ws_only.
+    - pose proof (nested_and _ _ t Ns (shape_nested_no_sp t Hsh)) as N.
+      eapply Forall_impl; [|exact N]. intros wd Hwd.
+      eapply Forall_impl; [|exact Hwd]. intros syl [H1 H3]. split.
+      + apply free_only_at_end. now apply free_terminated.
+      + intros pad Hpad. now apply clean_pad_ws_syll.
     - now apply shape_sylls_tok.
-    - repeat apply ws_only_replace_go; try exact Hws; try apply ws_only_nil; apply ws_only_sp.
+    - apply ws_only_replace_go; [apply ws_only_nil|exact Hws].
   Qed.
+
+  (* the statement of before fix 7cc02d3 (no space inside xs), still true *)
+  Theorem prepare_syll_pad_ws_spec : forall ws : str, ws_only ws ->
+    prepare_line sep USyll (render_pad_ws xs xw t ++ ws) = Ok (join [sp] (sylls_of t)).
+  Proof.
+    apply prepare_syll_pad_ws_core. apply free_sp_hd; [exact Hxs|now apply hd_not_sp_of_not_in].
+  Qed.
+
+  (* what the fix bought: xs may contain spaces, as long as it does not begin with one *)
+  Theorem prepare_syll_pad_ws_spec_spaces : forall ws : str, ws_only ws ->
+    prepare_line sep USyll (render_pad_ws xs xw t ++ ws) = Ok (join [sp] (sylls_of t)).
+  Proof. apply prepare_syll_pad_ws_core. exact Ss. Qed.
 
   Theorem gold_pad_ws_spec : forall ws : str, ws_only ws ->
     gold_line sep (render_pad_ws xs xw t ++ ws) = Ok (join [sp] (words_of t)).
@@ -557,6 +727,89 @@ Section PadWs.
     auto.
   Qed.
 End PadWs.
+
+(* ================= syllable level undefined (since fix 7cc02d3: no TypeError any more) ================= *)
+
+(* prepare at syllable level with no syllable separator cuts the line on white space:
+   with a white-space-free phone separator the whole utterance is one chunk, with a space as
+   phone separator the chunks are the phones *)
+
+Lemma norm_ws_ws_free (c : str) : ws_free c -> norm_ws c = c.
+Proof.
+  intros H. unfold norm_ws. rewrite strip_ws_free by exact H.
+  rewrite <- (app_nil_r c) at 1. rewrite collapse_ws_free_app by exact H. apply app_nil_r.
+Qed.
+
+Section SyllUndefined.
+  Variables xp xw : str.
+  Hypothesis Hxp : xp <> [].
+  Hypothesis Hxw : xw <> [].
+  Hypothesis Fwp : free xw xp.
+  Variable t : utree.
+  Hypothesis Ht : tree2_ok xp xw t.
+  Hypothesis Hfree : Forall (phone_free2 xp xw) (phones_of t).
+
+  Lemma undefined_stage_w (ws : str) :
+    replace_all xw [] (render (sep2 xp xw) t ++ ws) = terminated xp (phones_of t) ++ replace_all xw [] ws.
+  Proof.
+    rewrite render2_as3.
+    rewrite (replace_all_render_rest xw [] Hxw xp [] xw
+               (or_intror Fwp) (or_intror (free_nil xw)) (or_introl eq_refl) t _ (nested2_w xp xw t Hfree)).
+    rewrite sub_same, sub_nil, sub_free by assumption. now rewrite render_phone_only.
+  Qed.
+
+  Lemma tree2_only_p : Forall (fun ph : str => only_at_end xp ph = true) (phones_of t).
+  Proof.
+    unfold phones_of. apply Forall_concat. eapply Forall_impl; [|exact Ht].
+    intros wd (_ & Hp & _). eapply Forall_impl; [|exact Hp]. now intros ph (_ & _ & H).
+  Qed.
+
+  (* the phone separator contains no white space: one chunk, all the phones concatenated *)
+  Theorem prepare_syll_undefined_spec : ws_free xp -> forall ws : str, ws_only ws ->
+    prepare_line (sep2 xp xw) USyll (render (sep2 xp xw) t ++ ws) = Ok (concat (phones_of t)).
+  Proof.
+    intros Hwp ws Hws. unfold prepare_line.
+    cbn [sep2 s_word s_syll s_phone Prepare.Model.osep]. cbv zeta. f_equal.
+    rewrite undefined_stage_w.
+    pose proof (tree2_phones_tok xp xw t Ht) as Hok.
+    assert (HX : ws_free (terminated xp (phones_of t))).
+    { unfold terminated. apply ws_free_concat. apply Forall_map.
+      eapply Forall_impl; [|exact Hok]. intros ph [_ H]. apply ws_free_app. now split. }
+    assert (Hc : ws_free (concat (phones_of t))).
+    { apply ws_free_concat. eapply Forall_impl; [|exact Hok]. now intros ph [_ H]. }
+    unfold split_ws. rewrite split_ws_go_free by exact HX. rewrite app_nil_r.
+    rewrite split_ws_go_only_ws by (apply replace_all_ws_only; [apply ws_only_nil|exact Hws]).
+    destruct (rev (terminated xp (phones_of t))) as [|c q] eqn:E.
+    - apply (f_equal (@rev char)) in E. rewrite rev_involutive in E. cbn [rev] in E.
+      destruct (phones_of t) as [|ph l]; [reflexivity|].
+      rewrite terminated_cons in E. apply app_eq_nil in E as [_ E].
+      apply app_eq_nil in E as [E _]. congruence.
+    - rewrite <- E, rev_involutive. cbn [map join]. unfold terminated at 1.
+      rewrite replace_all_joined by (try exact Hxp; exact tree2_only_p).
+      rewrite replace_all_no_infix.
+      + now apply norm_ws_ws_free.
+      + apply free_no_infix; [discriminate|]. now apply free_sp, ws_free_not_sp.
+  Qed.
+End SyllUndefined.
+
+(* the phone separator is a space: the chunks are the phones *)
+Theorem prepare_syll_undefined_ws_spec (xw : str) (t : utree) (ws : str) :
+  xw <> [] -> free xw [sp] -> tree2_ok [sp] xw t -> Forall (phone_free2 [sp] xw) (phones_of t) ->
+  ws_only ws ->
+  prepare_line (sep2 [sp] xw) USyll (render (sep2 [sp] xw) t ++ ws) = Ok (join [sp] (phones_of t)).
+Proof.
+  intros Hxw Fwp Ht Hfree Hws. unfold prepare_line.
+  cbn [sep2 s_word s_syll s_phone Prepare.Model.osep]. cbv zeta. f_equal.
+  rewrite (undefined_stage_w [sp] xw Hxw Fwp t Hfree).
+  pose proof (tree2_phones_tok [sp] xw t Ht) as Hok.
+  unfold split_ws. rewrite (split_terminated [sp] ws_only_sp ltac:(discriminate)) by exact Hok.
+  rewrite split_ws_go_only_ws by (apply replace_all_ws_only; [apply ws_only_nil|exact Hws]).
+  rewrite app_nil_r.
+  rewrite (map_id_Forall (fun x : str => replace_all [sp] [] (replace_all [sp] [] x))).
+  2:{ eapply Forall_impl; [|exact Hok]. intros ph Hph. cbv beta. rewrite (replace_sp_tok ph Hph). exact (replace_sp_tok ph Hph). }
+  rewrite <- (app_nil_r (join [sp] (phones_of t))) at 1.
+  apply norm_ws_join_ws; [exact Hok|apply ws_only_nil].
+Qed.
 
 (* ================= tests and refutations (vm_compute) ================= *)
 
@@ -632,40 +885,54 @@ Example prepare_syll_pad_spec_refuted_ws :
         (join [sp] (sylls_of rf_t)) = false.
 Proof. vm_compute. repeat split; reflexivity. Qed.
 
-(* [free xp xs] is needed at syllable level: xs = "abc", xp = "b" *)
-Example prepare_syll_pad_spec_refuted_ps :
-  gold_pad_hyp_b rf_b rf_abc us_w rf_t = true /\ free_b us_w rf_b = true /\ free_b us_w rf_abc = true /\
+(* since fix 7cc02d3 [free xp xs] is no longer needed at syllable level (xs = "abc", xp = "b"):
+   this was a counterexample before the fix *)
+Example prepare_syll_pad_no_free_ps :
+  gold_pad_hyp_b rf_b rf_abc us_w rf_t = true /\ free_b rf_b rf_abc = false /\
   is_ok (prepare_line (sep3 rf_b rf_abc us_w) USyll (render_pad rf_b rf_abc us_w rf_t))
-        (join [sp] (sylls_of rf_t)) = false.
+        (join [sp] (sylls_of rf_t)) = true.
 Proof. vm_compute. repeat split; reflexivity. Qed.
 
-(* no space inside xp / xs at syllable level: xp = "a b", resp. xs = "= =" *)
+(* ... nor the absence of spaces inside xp ("a b") and xs ("= ="): both were counterexamples *)
 Definition rf_a_b : str := [97; 32; 98]%N.
 Definition rf_eq_eq : str := [61; 32; 61]%N.
 Definition rf_sh_sh : str := [35; 32; 35]%N.
 
-Example prepare_syll_pad_spec_refuted_sp_p :
+Example prepare_syll_pad_inner_space_p :
   gold_pad_hyp_b rf_a_b us_s us_w rf_t = true /\
-  free_b us_w rf_a_b = true /\ free_b us_w us_s = true /\ free_b rf_a_b us_s = true /\
   is_ok (prepare_line (sep3 rf_a_b us_s us_w) USyll (render_pad rf_a_b us_s us_w rf_t))
-        (join [sp] (sylls_of rf_t)) = false.
+        (join [sp] (sylls_of rf_t)) = true.
 Proof. vm_compute. repeat split; reflexivity. Qed.
 
-Example prepare_syll_pad_spec_refuted_sp_s :
+Example prepare_syll_pad_inner_space_s :
   gold_pad_hyp_b us_p rf_eq_eq us_w rf_t = true /\
-  free_b us_w us_p = true /\ free_b us_w rf_eq_eq = true /\ free_b us_p rf_eq_eq = true /\
   is_ok (prepare_line (sep3 us_p rf_eq_eq us_w) USyll (render_pad us_p rf_eq_eq us_w rf_t))
-        (join [sp] (sylls_of rf_t)) = false.
+        (join [sp] (sylls_of rf_t)) = true.
 Proof. vm_compute. repeat split; reflexivity. Qed.
 
-(* space as phone separator: a space inside xs breaks the syllable level, inside xw the gold *)
+(* but [free xs xp] is needed now, since the line is cut on xs before xp is deleted:
+   xp = "a=b", xs = "="; the hypotheses of the statement of before the fix all hold *)
+Definition rf_aeb : str := [97; 61; 98]%N.
+Example prepare_syll_pad_spec_old_refuted :
+  free_b us_w rf_aeb = true /\ free_b us_w us_s = true /\ free_b rf_aeb us_s = true /\
+  hd_not_sp_b us_w = true /\ tree_shape_b rf_t = true /\
+  forallb (phone_free_b rf_aeb us_s us_w) (phones_of rf_t) = true /\
+  free_b us_s rf_aeb = false /\
+  prepare_line (sep3 rf_aeb us_s us_w) USyll (render_pad rf_aeb us_s us_w rf_t)
+  = Ok [104; 97; 32; 98; 101; 97; 32; 98]%N /\                     (* "ha bea b" *)
+  join [sp] (sylls_of rf_t) = [104; 101]%N.
+Proof. vm_compute. repeat split; reflexivity. Qed.
+
+(* space as phone separator: a space inside xw breaks the gold *)
 Definition pad_ws_hyp_b (xs xw : str) (t : utree) : bool :=
   nonnil xs && nonnil xw && hd_not_sp_b xs && hd_not_sp_b xw && free_b xs xw && free_b xw xs &&
   tree_shape_b t && forallb (fun ph : str => free_b xs ph && free_b xw ph) (phones_of t).
 
-Example prepare_syll_pad_ws_spec_refuted :
+(* since fix 7cc02d3 a space inside xs ("= =") is harmless at syllable level (it was a
+   counterexample before) *)
+Example prepare_syll_pad_ws_inner_space :
   pad_ws_hyp_b rf_eq_eq us_w rf_t = true /\
-  three_views_pad_ws rf_eq_eq us_w rf_t [] = (true, false, true).
+  three_views_pad_ws rf_eq_eq us_w rf_t [] = (true, true, true).
 Proof. vm_compute. repeat split; reflexivity. Qed.
 
 Example gold_pad_ws_spec_refuted :
@@ -679,5 +946,8 @@ Print Assumptions prepare_syll_pad_spec.
 Print Assumptions views_pad_aligned.
 Print Assumptions prepare_phone_pad_ws_spec.
 Print Assumptions prepare_syll_pad_ws_spec.
+Print Assumptions prepare_syll_pad_ws_spec_spaces.
 Print Assumptions gold_pad_ws_spec.
 Print Assumptions views_pad_ws_aligned.
+Print Assumptions prepare_syll_undefined_spec.
+Print Assumptions prepare_syll_undefined_ws_spec.
